@@ -13,3 +13,10 @@ def felica_key(password):
     if len(password) == 0:
         return bytes(16)
     return password[0:16]
+
+
+def felica_rc(rcblock):
+    """the challenge RC1||RC2 a FeliCa Lite tag holds in block 80h (each 8-octet half stored in reversed order)"""
+    b = rcblock
+    return bytes([b[7], b[6], b[5], b[4], b[3], b[2], b[1], b[0],
+                  b[15], b[14], b[13], b[12], b[11], b[10], b[9], b[8]])
